@@ -666,6 +666,8 @@ Array<T>& Array<T>::insert(int k, const T& x)
 	int s = h->s;
 	if (k == -1)
 		k = n;
+	const T* px = &x;
+	int own = (px >= _a && px < _a + n) ? int(px - _a) : -1; // x is an element of this same array
 	if (n < s) {}
 	else
 	{
@@ -683,7 +685,9 @@ Array<T>& Array<T>::insert(int k, const T& x)
 	if (k < n) {
 		memmove((char*)_a + (k + 1) * sizeof(T), (void*)(_a + k), (n - k) * sizeof(T));
 	}
-	asl_construct_copy(_a + k, x);
+	if (own >= 0) // the block may have moved and the elements from k on have shifted
+		px = _a + (own >= k ? own + 1 : own);
+	asl_construct_copy(_a + k, *px);
 	h->n = n+1;
 	return *this;
 }
